@@ -107,7 +107,7 @@ def check_forced_kill_eof(ctx, rule):
         for n in ast.walk(st):
             for field in ('body', 'orelse', 'finalbody'):
                 lst = getattr(n, field, None)
-                if isinstance(lst, list) and any(isinstance(x, ast.Expr) and isinstance(x.value, ast.Call) and last_attr(x.value) == 'terminate' and receiver(x.value) == 'self._child' for x in lst):
+                if isinstance(lst, list) and any(isinstance(x, ast.Expr) and isinstance(x.value, ast.Call) and last_attr(x.value) in ('terminate', 'kill') and receiver(x.value) == 'self._child' for x in lst):
                     blocks.append(lst)
     ctx.require(blocks, 'RemoteWorker.terminate[server]: the forced kill of the backend was not found')
     calls = _calls_following_helpers(ctx, RW, term, blocks[0])
